@@ -563,7 +563,7 @@ def post_token_assignments(lTokens):
 
             elif sValue == "'":
                 lTokens[iToken] = parser.tic(sValue)
-                utils.classify_predefined_types(lTokens, iToken + 1)
+                utils.classify_predefined_types(lTokens, utils.find_next_non_whitespace_token(iToken + 1, lTokens))
 
             elif len(sValue) == 3 and sValue.startswith("'") and sValue.endswith("'"):
                 lTokens[iToken] = parser.character_literal(sValue)
